@@ -47,6 +47,10 @@ static void init_tokens() {
   TOKENS.push_back({"valid-hs256-kid-known", ref_token(oct, JWT_ALG_HS256, "{\"alg\":\"HS256\",\"kid\":\"known\"}", good)});
   TOKENS.push_back({"valid-hs256-kid-unknown", ref_token(oct, JWT_ALG_HS256, "{\"alg\":\"HS256\",\"kid\":\"other\"}", good)});
   TOKENS.push_back({"valid-hs256-noclaims", ref_token(oct, JWT_ALG_HS256, H("HS256"), "{}")});
+  // inputs that make the error message as long as its buffer (messages quote the offending text)
+  TOKENS.push_back({"unknown-alg-240-chars", b64u_enc("{\"alg\":\"" + std::string(240, 'Q') + "\"}") + ".e30.AAAA"});
+  TOKENS.push_back({"unknown-alg-241-chars", b64u_enc("{\"alg\":\"" + std::string(241, 'Q') + "\"}") + ".e30.AAAA"});
+  TOKENS.push_back({"unknown-alg-5000-chars", b64u_enc("{\"alg\":\"" + std::string(5000, 'Q') + "\"}") + ".e30.AAAA"});
 }
 static const int CKEYS[] = {-1, 0, 1, 3, 4, 2, 5};
 static const jwt_alg_t CALGS[] = {JWT_ALG_NONE, JWT_ALG_HS256, JWT_ALG_ES256, JWT_ALG_HS512};
